@@ -130,6 +130,14 @@ def run(P, R, tier):
     _traps.check(P, R, ['gmm'], scope='gmm:(e_step|m_step|GMMStats\\.(__add__|__iadd__|init_fields|reset|resize|__init__|_\\w+)|GMMMachine\\.acc_stats)')
     from ..engines import own as _oe2
     _oe2.check_inplace_views(P, R, _oe2.Own(P), "gmm:e_step")
+    from ..engines import own as _oro
+    _own_ro = _oro.Own(P)
+    n_ro = 0
+    n_ro += _oro.check_param_readonly(P, R, _own_ro, 'gmm:ml_gmm_m_step', ['statistics'], why='the statistics / data handed to one step are changed by it: a second step from the same object (several clients adapted from one set of statistics, a repeated call) computes from different values')
+    n_ro += _oro.check_param_readonly(P, R, _own_ro, 'gmm:map_gmm_m_step', ['statistics'], why='the statistics / data handed to one step are changed by it: a second step from the same object (several clients adapted from one set of statistics, a repeated call) computes from different values')
+    R.floor('OWN.readonly parameters', n_ro, 2)
+    from ..engines import proto as _prd
+    _prd.check_return_deps(P, R, 'gmm:e_step', pattern=r'^(data|machine)$')
 
 
 EXPLANATION += " Added after the seeded rounds: (DTYPE.raw) no product / square of the samples is computed in the dtype of the input array; (OWN.iadd-alias) `a += b` stores no array of b into a; (OPT) default statistics fields are selected when the argument is absent, not when it is given; (COVER.fold / COVER.pairs) the M-step folds every block's statistics, and a neighbour-pairing reduction keeps the unpaired element."
